@@ -331,11 +331,40 @@ def r7_node_arithmetic(idx, r):
                 if isinstance(comp, ast.ListComp) and isinstance(comp.generators[0].iter, ast.Name) and comp.generators[0].iter.id in envs:
                     src = envs[comp.generators[0].iter.id]
                     if isinstance(src, ast.ListComp):
-                        has_av = any("vailab" in str(a) for a in E.ev(src.elt).atoms()) and isinstance(src.elt, ast.BinOp) and isinstance(src.elt.op, ast.Mult)
+                        g0 = src.generators[0]
+                        paired = (isinstance(g0.iter, ast.Call) and dotted(g0.iter.func) == "zip" and len(g0.iter.args) == 2 and isinstance(g0.target, ast.Tuple)
+                                  and any("vailab" in norm(a) for a in g0.iter.args) and isinstance(src.elt, ast.BinOp) and isinstance(src.elt.op, ast.Mult)
+                                  and {norm(src.elt.left), norm(src.elt.right)} == {norm(e) for e in g0.target.elts})
+                        has_av = paired
             no_cnt = not (total.atoms() & cnt.atoms())
             r.require(has_av and no_cnt, f"equal-steps-sum:{norm(n.right)}", sl, node=n, msg=f"n equal steps must sum to length x availability, independent of n: total normal form {total}")
     if found < 2:
         raise AnalysisError("_getStepAndCycleLengths: equal-steps constructions not found")
+
+
+def r8_toggles(idx, r):
+    """enabled() and bolForce() are query/set toggles: query exactly when no flag is given, else store the flag."""
+    iface = idx.cls("armi.interfaces.Interface")
+    for name in ("enabled", "bolForce"):
+        f = iface.methods.get(name)
+        if f is None:
+            raise AnchorMissing(f"Interface.{name}")
+        first = next((s_ for s_ in f.node.body if isinstance(s_, ast.If)), None)
+        okq = first is not None and norm(first.test) == "flag is None" and len(first.body) == 1 and isinstance(first.body[0], ast.Return) and isinstance(first.body[0].value, ast.Attribute) \
+            and norm(first.body[0].value.value) == "self"
+        r.require(okq, f"Interface.{name}:query-exactly-on-None", f, node=first, msg=f"{name}() must be a query exactly when `flag is None` (so that {name}(False) clears the flag)")
+        if okq:
+            attr = first.body[0].value.attr
+            sets = [s_ for s_ in iter_stores(f.node) if s_.chain == f"self.{attr}" and s_.value is not None and norm(s_.value) == "flag"]
+            r.require(bool(sets), f"Interface.{name}:stores-flag", f, msg=f"{name}(flag) must store the flag into self.{attr}")
+    ai = idx.method(OP, "addInterface")
+    calls = {norm(c) for c in iter_calls(ai.node)}
+    bf = next((c for c in iter_calls(ai.node) if norm(c) == "interface.bolForce(bolForce)"), None)
+    conds = [norm(t) for t, p in path_conditions(ai.node, bf) if p] if bf is not None else None
+    r.require(bf is not None and not conds, "addInterface:bolForce-unconditional", ai, node=bf, msg="addInterface must always set the BOL-force flag from its argument")
+    en = next((c for c in iter_calls(ai.node) if norm(c) == "interface.enabled(False)"), None)
+    r.require(en is not None and [(norm(t), p) for t, p in path_conditions(ai.node, en) if norm(t) == "not enabled"] == [("not enabled", True)], "addInterface:disable", ai, node=en,
+              msg="addInterface must disable the interface when enabled=False")
 
 
 def run(idx, chk):
@@ -354,5 +383,7 @@ def run(idx, chk):
     chk.run_rule("R15.5", "getActiveInterfaces filters self.interfaces in stack order with enabled/bolForce and the name checks; EOL reverse-flagged last, reversed; error hooks unfiltered", lambda r: r5_selection(idx, r), floor=10,
                  necessary="selection and order of hooks")
     chk.run_rule("R15.6", "tight coupling: capped loop, break only on convergence, skipped for exempt cycles, node written afterwards regardless", lambda r: r6_coupling(idx, r), floor=9, necessary="coupling iterations and the per-node write")
+    chk.run_rule("R15.8", "Interface.enabled/bolForce are sibling toggles of identical shape; addInterface sets all three flags", lambda r: r8_toggles(idx, r), floor=3,
+                 necessary="'enabled (or forced at beginning-of-life)' must reflect what the stack was configured with")
     chk.run_rule("R15.7", "(cycle,node) <-> cumulative numbering share getNodesPerCycle = burnSteps+1 and are inverse affine forms; equal steps sum to length x availability", lambda r: r7_node_arithmetic(idx, r), floor=14,
                  necessary="numbering must follow the order a run visits nodes")
